@@ -366,6 +366,57 @@ def density(kind, norb=3, nchol=1, flip=False, nocc=1):
     return out
 
 
+def writeback(kind, norb=4, nocc=2, flip=False):
+    """C18.opt.writeback.<kind>: optimize() returns, as the new trial orbitals of spin s, the n_s COLUMNS of lowest eigenvalue of the last eigenvector matrix
+    (up to the column sign convention): wave_data['mo_coeff'] == +-V_s[:, :n_s] for all eigenvector matrices V (one SCF iteration, eigh under its contract)."""
+    from vc.jxvc import harness as H
+    from vc.jxvc.interp import evaluate
+    from vc.jxvc.field import is_obj
+    t0 = time.time()
+    H.setup_repo()
+    import jax
+    import jax.numpy as jnp
+    from ad_afqmc import wavefunctions as wf
+    nel = (nocc, nocc) if kind == "rhf" else (nocc + 1, nocc)
+    trial = getattr(wf, kind)(norb, nel, n_opt_iter=1)
+    nspin = 1 if kind == "rhf" else 2
+    inpv = H.Inputs(41)
+    hv = [inpv.declare(f"V{s}", (norb, norb)) for s in range(nspin)]
+    inpv.build()
+    sp = inpv.sp
+    calls = dict(eigh=0)
+
+    def h_eigh(it, e, ins):
+        s_ = calls["eigh"]
+        calls["eigh"] += 1
+        w = np.arange(1, norb + 1, dtype=float)
+        V = hv[s_ % nspin]["V"].s
+        return [V, w] if e.outvars[0].aval.ndim == 2 else [w, V]
+    hooks = {"eigh": h_eigh, "argmax": lambda it, e, ins: np.zeros(tuple(e.outvars[0].aval.shape), dtype=np.dtype(e.outvars[0].aval.dtype)),
+             "abs": lambda it, e, ins: ins[0] if is_obj(ins[0]) else None,
+             "lt": lambda it, e, ins: np.full(np.shape(ins[0]), bool(flip)) if (is_obj(ins[0]) and not is_obj(ins[1]) and np.all(np.asarray(ins[1]) == 0)) else None}
+    rng = np.random.default_rng(1)
+    h1 = rng.normal(size=(2, norb, norb)); h1 = h1 + h1.transpose(0, 2, 1)
+    ham_x = dict(h1=jnp.asarray(h1), chol=jnp.asarray(rng.normal(size=(1, norb * norb))))
+    C0 = np.eye(norb)
+    wave_x = dict(mo_coeff=jnp.asarray(C0[:, :nel[0]])) if kind == "rhf" else dict(mo_coeff=[jnp.asarray(C0[:, :nel[0]]), jnp.asarray(C0[:, :nel[1]])])
+    ham_s, wave_s = jax.tree_util.tree_map(np.asarray, ham_x), jax.tree_util.tree_map(np.asarray, wave_x)
+    name = f"C18.opt.writeback.{kind}[norb={norb},nel={nel[0]}+{nel[1]},flip={int(flip)}]"
+    fns = [f"wavefunctions.{kind}.optimize"]
+    out, _ = evaluate(sp, trial.optimize, (ham_s, wave_s), (dict(ham_x), wave_x), prim_hook=hooks)
+    sg = sp.const(-1 if flip else 1)
+    res = []
+    got = [out["mo_coeff"]] if kind == "rhf" else list(out["mo_coeff"])
+    for s_ in range(nspin):
+        want = hv[s_]["V"].s[:, :nel[s_]] * sg
+        o = H.identity(name + ("" if kind == "rhf" else f".{'ud'[s_]}{'pn'[s_]}"), np.asarray(got[s_], dtype=object), want, kind="bounded", functions=fns, inputs=inpv, t0=t0,
+                       note="returned orbitals == the n_s eigenvector COLUMNS of lowest eigenvalue (with the enumerated column sign)")
+        if o["status"] == REFUTED:
+            _replay_fock(o) if kind == "uhf" else _replay_rhf_fixed_point(o)
+        res.append(o)
+    return res
+
+
 def _replay_rhf_fixed_point(o):
     """native replay: a converged RHF solution (independent numpy SCF) must be a fixed point of rhf.optimize over several iterations"""
     try:
